@@ -1,11 +1,316 @@
-(* C09 proofs. *)
+(* C09 proofs: digest law, totality, reissue bookkeeping, cookie attributes. *)
 From Coq Require Import List NArith ZArith Bool Lia ZifyBool ZifyN.
 Import ListNotations.
 Require Import Verif.Lib.Wire Verif.Lib.Text Verif.Lib.Percent Verif.Lib.Utf8 Verif.Lib.C09Base.
 Require Import Verif.Gen.Facts_C09 Verif.Model.C09.
 Ltac Zify.zify_post_hook ::= Z.div_mod_to_equations.
+Local Arguments cmp_eval : simpl never.
 
-Lemma forget_deletes c r st :
-  step (fun _ _ => []) (fun _ => O) (fun _ => 63%N) c r st OForget
-  = (mkSt (reissued st) true (callbacks st), OutHdr (Some (get_cookies c r None None))).
+(* ------------------------------------------------------------------ UTF-8 is injective on scalar values *)
+Lemma encode_inj a b :
+  forallb valid_scalar a = true -> forallb valid_scalar b = true -> encode a = encode b -> a = b.
+Proof.
+  intros Ha Hb E. pose proof (decode_encode a Ha) as Da. pose proof (decode_encode b Hb) as Db.
+  rewrite E in Da. congruence.
+Qed.
+
+Lemma forallb_firstn {A} (f : A -> bool) n l : forallb f l = true -> forallb f (firstn n l) = true.
+Proof.
+  revert l; induction n as [|n IH]; intros [|x l]; simpl; auto.
+  intros H. apply andb_true_iff in H as [H1 H2]. rewrite H1. simpl. auto.
+Qed.
+
+Lemma forallb_lstrip (f : N -> bool) c l : forallb f l = true -> forallb f (lstrip_char c l) = true.
+Proof.
+  induction l as [|x l IH]; simpl; auto. intros H.
+  destruct (N.eqb x c); [apply andb_true_iff in H as [_ H]; auto|simpl; exact H].
+Qed.
+
+Lemma forallb_rev {A} (f : A -> bool) l : forallb f (rev l) = forallb f l.
+Proof.
+  induction l as [|x l IH]; simpl; auto. rewrite forallb_app, IH. simpl. rewrite andb_true_r. apply andb_comm.
+Qed.
+
+Lemma forallb_strip (f : N -> bool) c l : forallb f l = true -> forallb f (strip_char c l) = true.
+Proof.
+  intros H. unfold strip_char, rstrip_char. rewrite forallb_rev. apply forallb_lstrip.
+  rewrite forallb_rev. apply forallb_lstrip. exact H.
+Qed.
+
+Section WithOracles.
+Variable H : text -> list N -> text.
+Variable dsz : text -> nat.
+Variable uni : N -> N.
+
+Notation parse_fields := (parse_fields dsz uni).
+Notation parse_ticket := (parse_ticket H dsz uni).
+Notation identify_pre := (identify_pre H dsz uni).
+Notation identify := (identify H dsz uni).
+Notation digest_ok := (digest_ok H dsz uni).
+Notation step := (step H dsz uni).
+Notation run_ops := (run_ops H dsz uni).
+Notation spec_response := (spec_response H dsz uni).
+Notation spec_reissue_ticket := (spec_reissue_ticket H dsz uni).
+Notation remember := (remember H).
+
+(* the digest field of a parsed cookie is a slice of the cookie *)
+Lemma parse_fields_digest_scalar alg ck0 d ts u tk ud :
+  forallb valid_scalar ck0 = true -> parse_fields alg ck0 = FOk d ts u tk ud -> forallb valid_scalar d = true.
+Proof.
+  intros Hs. unfold C09.parse_fields.
+  destruct (py_int _ _ _); [|discriminate].
+  destruct (split1 _ _) as [[uq data]|]; [|discriminate].
+  destruct (split1 bang data) as [[a b]|]; intros E; inversion E; subst;
+    apply forallb_firstn, forallb_strip; exact Hs.
+Qed.
+
+(* ------------------------------------------------------------------ accept => keyed digest of the other fields *)
+Lemma parse_ok_digest sec ck0 ip alg ts u toks ud :
+  parse_ticket sec ck0 ip alg = POk ts u toks ud ->
+  exists d tk, parse_fields alg ck0 = FOk d ts u tk ud /\ toks = split_on comma tk
+               /\ encode d = encode (calculate_digest H alg ip ts sec u tk ud).
+Proof.
+  unfold C09.parse_ticket. destruct (parse_fields alg ck0) as [d ts' u' tk ud'|]; [|discriminate].
+  unfold strings_differ.
+  destruct (text_eqb_spec (encode (calculate_digest H alg ip ts' sec u' tk ud')) (encode d)) as [E|E];
+    simpl; [|discriminate].
+  intros X; inversion X; subst. exists d, tk. auto.
+Qed.
+
+Definition scalar_oracle := forall a x, forallb valid_scalar (H a x) = true.
+
+Theorem accept_implies_digest c r ck0 ts u toks ud :
+  scalar_oracle -> forallb valid_scalar ck0 = true ->
+  cookie r = Some ck0 ->
+  identify_pre c r = ISome ts u toks ud ->
+  digest_ok c r ck0 = true.
+Proof.
+  intros HS Hck Hc. unfold C09.identify_pre, C09.digest_ok. rewrite Hc.
+  destruct (eff_ip c r) as [ip|]; [|discriminate].
+  destruct (parse_ticket (secret c) ck0 ip (hashalg c)) as [ts' u' toks' ud'|] eqn:P; [|discriminate].
+  destruct (parse_ok_digest _ _ _ _ _ _ _ _ P) as (d & tk & F & _ & E).
+  intros _. rewrite F. apply text_eqb_eq. apply encode_inj; auto.
+  - eapply parse_fields_digest_scalar; eauto.
+  - apply HS.
+Qed.
+
+(* with the fields spelled out: the identity comes from the cookie's own fields *)
+Theorem accept_fields c r ck0 ts u toks ud :
+  cookie r = Some ck0 ->
+  identify_pre c r = ISome ts u toks ud ->
+  exists ip d uid tk,
+    eff_ip c r = Some ip /\ parse_fields (hashalg c) ck0 = FOk d ts uid tk ud
+    /\ toks = split_on comma tk
+    /\ encode d = encode (calculate_digest H (hashalg c) ip ts (secret c) uid tk ud)
+    /\ decode_userid uni (split_on pipe ud) (VStr uid) = Some u
+    /\ timed_out c ts (now r) = false.
+Proof.
+  intros Hc. unfold C09.identify_pre. rewrite Hc.
+  destruct (eff_ip c r) as [ip|]; [|discriminate].
+  destruct (parse_ticket (secret c) ck0 ip (hashalg c)) as [ts' u' toks' ud'|] eqn:P; [|discriminate].
+  destruct (parse_ok_digest _ _ _ _ _ _ _ _ P) as (d & tk & F & T & E).
+  destruct (timed_out c ts' (now r)) eqn:TO; [discriminate|].
+  destruct (decode_userid uni (split_on pipe ud') (VStr u')) as [u2|] eqn:D; [|discriminate].
+  intros X; inversion X; subst. exists ip, d, u', tk. auto 10.
+Qed.
+
+(* ------------------------------------------------------------------ identification raises only for validly signed cookies *)
+Lemma default_ip_ok : classify_ip default_ip <> None.
+Proof. vm_compute. discriminate. Qed.
+
+Lemma eff_ip_some c r : exists ip, eff_ip c r = Some ip.
+Proof.
+  unfold eff_ip. destruct (include_ip c); [eauto|].
+  destruct (classify_ip default_ip) eqn:E; [eauto|]. exfalso. apply default_ip_ok. exact E.
+Qed.
+
+Theorem identify_pre_raise_signed c r ck0 :
+  scalar_oracle -> forallb valid_scalar ck0 = true ->
+  cookie r = Some ck0 ->
+  identify_pre c r = IRaise -> digest_ok c r ck0 = true.
+Proof.
+  intros HS Hck Hc. unfold C09.identify_pre, C09.digest_ok. rewrite Hc.
+  destruct (eff_ip_some c r) as (ip & Eip). rewrite Eip.
+  destruct (parse_ticket (secret c) ck0 ip (hashalg c)) as [ts' u' toks' ud'|] eqn:P; [|discriminate].
+  destruct (parse_ok_digest _ _ _ _ _ _ _ _ P) as (d & tk & F & _ & E).
+  intros _. rewrite F. apply text_eqb_eq. apply encode_inj; auto.
+  - eapply parse_fields_digest_scalar; eauto.
+  - apply HS.
+Qed.
+
+Lemma identify_result c r st :
+  snd (identify c r st) = identify_pre c r
+  \/ (exists ts u tk ud, identify_pre c r = ISome ts u tk ud /\
+        (snd (identify c r st) = IRaise \/ snd (identify c r st) = ISome ts u (filter nonempty tk) ud)).
+Proof.
+  unfold C09.identify. destruct (identify_pre c r) as [|ts u tk ud|] eqn:P; auto.
+  destruct (reissue_time c) as [rt|]; auto.
+  destruct (negb (reissued st) && cmp_eval reissue_cmp (now r - ts) rt); auto.
+  right. exists ts, u, tk, ud. split; auto.
+  destruct (remember c r u (max_age c) (filter nonempty tk)); simpl; auto.
+Qed.
+
+(* the full statement of "never raises": for every cookie text (scalar values) that is not validly
+   signed under the helper's secret, whatever the state of the request *)
+Theorem identify_total c r st ck0 :
+  scalar_oracle -> forallb valid_scalar ck0 = true ->
+  cookie r = Some ck0 -> digest_ok c r ck0 = false ->
+  snd (identify c r st) = INone /\ fst (identify c r st) = st.
+Proof.
+  intros HS Hck Hc Hd.
+  assert (P : identify_pre c r = INone).
+  { destruct (identify_pre c r) as [|ts u tk ud|] eqn:P; auto.
+    - rewrite (accept_implies_digest c r ck0 ts u tk ud HS Hck Hc P) in Hd. discriminate.
+    - rewrite (identify_pre_raise_signed c r ck0 HS Hck Hc P) in Hd. discriminate. }
+  unfold C09.identify. rewrite P. auto.
+Qed.
+
+Theorem identify_no_cookie c r st : cookie r = None -> identify c r st = (st, INone).
+Proof. intros Hc. unfold C09.identify, C09.identify_pre. rewrite Hc. reflexivity. Qed.
+
+(* ------------------------------------------------------------------ reissue bookkeeping *)
+(* the code's reissue test is the property's "older than" *)
+Lemma reissue_cmp_gt a b : cmp_eval reissue_cmp a b = Z.ltb b a.
 Proof. reflexivity. Qed.
+
+Definition inv (c : cfg) (r : req) (seenI seenE : bool) (st : state) : Prop :=
+  revoked st = seenE /\
+  match spec_reissue_ticket c r with
+  | Some hs => reissued st = seenI /\ callbacks st = (if seenI then [hs] else [])
+  | None => reissued st = false /\ callbacks st = []
+  end.
+
+Lemma identify_step c r st i e :
+  inv c r i e st -> inv c r true e (fst (identify c r st)).
+Proof.
+  intros [Hr Hs]. unfold inv, C09.identify, C09.spec_reissue_ticket in *.
+  destruct (identify_pre c r) as [|ts u tk ud|] eqn:P; simpl.
+  - auto.
+  - destruct (reissue_time c) as [rt|] eqn:RT; simpl; [|auto].
+    rewrite reissue_cmp_gt. destruct (Z.ltb rt (now r - ts)) eqn:CM.
+    + destruct (remember c r u (max_age c) (filter nonempty tk)) as [hs|] eqn:RM.
+      * destruct Hs as [Hi Hc]. destruct (reissued st) eqn:RS; simpl.
+        -- subst i. auto.
+        -- subst i. simpl in Hc. rewrite Hc. simpl. auto.
+      * destruct Hs as [Hi Hc]. rewrite Hi. simpl. auto.
+    + rewrite andb_false_r. simpl. auto.
+  - auto.
+Qed.
+
+Lemma step_inv c r st i e o :
+  inv c r i e st ->
+  inv c r (i || is_identify o) (e || is_explicit H c r o) (fst (step c r st o)).
+Proof.
+  intros I. destruct o as [|u ma toks|]; simpl.
+  - rewrite orb_true_r, orb_false_r. destruct (identify c r st) as [st' res] eqn:E.
+    simpl. change st' with (fst (st', res)). rewrite <- E. eapply identify_step; eauto.
+  - rewrite orb_false_r. destruct (remember c r u ma toks) as [hs|]; simpl.
+    + rewrite orb_true_r. destruct I as [Hr Hs]. split; auto.
+    + rewrite orb_false_r. exact I.
+  - rewrite orb_false_r, orb_true_r. destruct I as [Hr Hs]. split; auto.
+Qed.
+
+Lemma run_inv c r ops : forall st i e,
+  inv c r i e st ->
+  inv c r (i || existsb is_identify ops) (e || existsb (is_explicit H c r) ops) (fst (run_ops c r st ops)).
+Proof.
+  induction ops as [|o ops IH]; intros st i e I; simpl.
+  - rewrite !orb_false_r. exact I.
+  - destruct (step c r st o) as [st1 x] eqn:E1.
+    destruct (run_ops c r st1 ops) as [st2 xs] eqn:E2. simpl.
+    rewrite !orb_assoc. change st2 with (fst (st2, xs)). rewrite <- E2. apply IH.
+    change st1 with (fst (st1, x)). rewrite <- E1. apply step_inv. exact I.
+Qed.
+
+Lemma inv_st0 c r : inv c r false false st0.
+Proof. split; auto. simpl. destruct (spec_reissue_ticket c r); auto. Qed.
+
+(* exactly one fresh ticket (that of the reissue) is attached, unless a forget or a successful
+   remember happened anywhere in the request; nothing is attached otherwise *)
+Theorem reissue_once c r ops :
+  response_cookies (fst (run_ops c r st0 ops)) = spec_response c r ops.
+Proof.
+  pose proof (run_inv c r ops st0 false false (inv_st0 c r)) as [Hr Hs]. simpl in Hr, Hs.
+  unfold response_cookies, C09.spec_response, has_identify. rewrite Hr.
+  destruct (existsb (is_explicit H c r) ops); auto.
+  destruct (spec_reissue_ticket c r) as [hs|]; destruct Hs as [_ ->].
+  - destruct (existsb is_identify ops); simpl; auto. apply app_nil_r.
+  - destruct (existsb is_identify ops); reflexivity.
+Qed.
+
+(* the attached ticket is the one remember() issues now for the identity of the request cookie *)
+Theorem reissued_ticket_is_fresh c r hs :
+  spec_reissue_ticket c r = Some hs ->
+  exists ts u tk ud rt, identify_pre c r = ISome ts u tk ud /\ reissue_time c = Some rt
+    /\ cmp_eval reissue_cmp (now r - ts) rt = true
+    /\ remember c r u (max_age c) (filter nonempty tk) = Some hs.
+Proof.
+  unfold C09.spec_reissue_ticket. destruct (identify_pre c r) as [|ts u tk ud|]; try discriminate.
+  destruct (reissue_time c) as [rt|]; try discriminate.
+  destruct (Z.ltb rt (now r - ts)) eqn:E; try discriminate.
+  intros R. exists ts, u, tk, ud, rt. rewrite reissue_cmp_gt. auto.
+Qed.
+
+(* ------------------------------------------------------------------ cookie attributes *)
+Lemma pick_domain_spec c r : pick_domain c r = spec_domain c r.
+Proof.
+  unfold pick_domain, spec_domain, truthy. destruct (domain c) as [[|x d]|]; simpl;
+    destruct (parent_domain c && Nat.ltb 1 (count_char 46 (cur_domain r))); auto;
+    destruct (split1 46 (cur_domain r)) as [[a b]|]; reflexivity.
+Qed.
+
+Lemma get_cookies_attrs c r v ma k :
+  In k (get_cookies c r v ma) -> attrs_ok c r ma k = true /\ ck_value k = v.
+Proof.
+  intros [<-|[]]. split; [|reflexivity]. unfold attrs_ok. simpl.
+  rewrite !text_eqb_refl, !eqb_reflx, pick_domain_spec. simpl.
+  destruct (samesite c) as [ss|]; [rewrite text_eqb_refl|]; simpl;
+    (destruct (spec_domain c r) as [dm|]; [rewrite text_eqb_refl|]; simpl;
+     (destruct ma as [m|]; [apply Z.eqb_refl|]; destruct (max_age c); [apply Z.eqb_refl|reflexivity])).
+Qed.
+
+Theorem cookie_attributes_remember c r u ma toks hs k :
+  remember c r u ma toks = Some hs -> In k hs ->
+  attrs_ok c r ma k = true /\ exists v, ck_value k = Some v.
+Proof.
+  unfold C09.remember. destruct (eff_ip c r) as [ip|]; [|discriminate].
+  destruct (encode_userid u) as [[tag enc]|]; [|discriminate].
+  destruct (forallb valid_token toks); [|discriminate].
+  intros X; inversion X; subst; clear X. intros Hin.
+  apply get_cookies_attrs in Hin. destruct Hin as [A V]. split; [|eauto].
+  unfold attrs_ok in *. destruct ma as [m|]; [exact A|]. destruct (max_age c); exact A.
+Qed.
+
+Theorem cookie_attributes_forget c r st k hs :
+  snd (step c r st OForget) = OutHdr (Some hs) -> In k hs ->
+  attrs_ok c r None k = true /\ ck_value k = None.
+Proof. simpl. intros X; inversion X; subst. apply get_cookies_attrs. Qed.
+
+End WithOracles.
+
+(* ------------------------------------------------------------------ non-vacuity *)
+Definition ex_H (a : text) (x : list N) : text :=      (* a toy "hash": 4 hex digits of a checksum *)
+  hex_pad 4 (fold_left (fun acc b => (acc * 31 + b + 7) mod 65536)%N x 0%N).
+Definition ex_cfg : cfg :=
+  mkCfg [115; 101; 99]%N [116; 107]%N false false (Some 10%Z) (Some 3%Z) None false [47]%N true false None [109]%N (Some [76]%N).
+Definition ex_req (ck0 : option text) (nw : Z) : req := mkReq ck0 (IP4 [127; 0; 0; 1]%N) [104]%N nw.
+Definition ex_cookie : text :=
+  match remember ex_H ex_cfg (ex_req None 1000) (VStr [98; 111; 98]%N) None [[97]%N] with
+  | Some [k] => match ck_value k with Some v => v | None => [] end
+  | _ => []
+  end.
+
+Example c09_nonvacuous :
+  (* an issued ticket is accepted at issue+timeout, rejected one second later *)
+  identify_pre ex_H (fun _ => 2%nat) (fun _ => 63%N) ex_cfg (ex_req (Some ex_cookie) 1010)
+    = ISome 1000 (VStr [98; 111; 98]%N) [[97]%N] (userid_typename ++ fst enc_str)
+  /\ identify_pre ex_H (fun _ => 2%nat) (fun _ => 63%N) ex_cfg (ex_req (Some ex_cookie) 1011) = INone
+  (* the digest law is not vacuous *)
+  /\ digest_ok ex_H (fun _ => 2%nat) (fun _ => 63%N) ex_cfg (ex_req (Some ex_cookie) 1010) ex_cookie = true
+  /\ digest_ok ex_H (fun _ => 2%nat) (fun _ => 63%N) ex_cfg (ex_req (Some ex_cookie) 1010) (48%N :: ex_cookie) = false
+  (* an old ticket is reissued once; not after a remember *)
+  /\ length (response_cookies (fst (run_ops ex_H (fun _ => 2%nat) (fun _ => 63%N) ex_cfg
+                                   (ex_req (Some ex_cookie) 1005) st0 [OIdentify; OIdentify]))) = 1%nat
+  /\ response_cookies (fst (run_ops ex_H (fun _ => 2%nat) (fun _ => 63%N) ex_cfg (ex_req (Some ex_cookie) 1005) st0
+                             [ORemember (VInt 5) None []; OIdentify])) = [].
+Proof. vm_compute. repeat split. Qed.
